@@ -10,13 +10,13 @@ Lemma escape_cons : forall m c s, escape m (c :: s) = escape_char m c ++ escape 
 Proof. reflexivity. Qed.
 
 Lemma lex_text_escape : forall s rest fuel,
-  no_cr_nul s = true -> (length (escape false s ++ 60%N :: rest) < fuel)%nat ->
+  no_nul s = true -> (length (escape false s ++ 60%N :: rest) < fuel)%nat ->
   lex_text fuel (escape false s ++ 60 :: rest) = Some (s, 60 :: rest).
 Proof.
   induction s as [|c s IH]; intros rest fuel NC F.
   - simpl in *. destruct fuel; [lia|]. reflexivity.
-  - simpl in NC. apply andb_true_iff in NC. destruct NC as [NC1 NC].
-    apply negb_true_iff in NC1. apply orb_false_iff in NC1. destruct NC1 as [N13 N0].
+  - simpl in NC. apply andb_true_iff in NC. destruct NC as [N0 NC].
+    apply negb_true_iff in N0.
     rewrite escape_cons in *. unfold escape_char in *. simpl andb in *.
     destruct (c =? 38) eqn:E38.
     { apply N.eqb_eq in E38. subst c. destruct fuel; [simpl in F; lia|].
@@ -28,23 +28,26 @@ Proof.
     destruct (c =? 62) eqn:E62.
     { apply N.eqb_eq in E62. subst c. destruct fuel; [simpl in F; lia|].
       simpl. rewrite IH; auto. simpl in F. rewrite app_length in *. simpl in *. lia. }
+    destruct (c =? 13) eqn:E13.
+    { apply N.eqb_eq in E13. subst c. destruct fuel; [simpl in F; lia|].
+      simpl. rewrite IH; auto. simpl in F. rewrite app_length in *. simpl in *. lia. }
     destruct fuel; [simpl in F; lia|].
-    simpl app. cbn [lex_text]. rewrite E60, N0, N13, E38.
+    simpl app. cbn [lex_text]. rewrite E60, N0, E13, E38.
     rewrite IH; auto. simpl in F. lia.
 Qed.
 
-Theorem escape_text_reversible : forall s rest, no_cr_nul s = true ->
+Theorem escape_text_reversible : forall s rest, no_nul s = true ->
   lex_text (S (length (escape false s ++ 60 :: rest))) (escape false s ++ 60 :: rest) = Some (s, 60 :: rest).
 Proof. intros. apply lex_text_escape; auto. Qed.
 
 Lemma lex_attr_escape : forall s rest fuel,
-  no_cr_nul s = true -> (length (escape true s ++ 34%N :: rest) < fuel)%nat ->
+  no_nul s = true -> (length (escape true s ++ 34%N :: rest) < fuel)%nat ->
   lex_attr_value fuel (escape true s ++ 34 :: rest) = Some (s, rest).
 Proof.
   induction s as [|c s IH]; intros rest fuel NC F.
   - simpl in *. destruct fuel; [lia|]. reflexivity.
-  - simpl in NC. apply andb_true_iff in NC. destruct NC as [NC1 NC].
-    apply negb_true_iff in NC1. apply orb_false_iff in NC1. destruct NC1 as [N13 N0].
+  - simpl in NC. apply andb_true_iff in NC. destruct NC as [N0 NC].
+    apply negb_true_iff in N0.
     rewrite escape_cons in *. unfold escape_char in *. simpl negb in *.
     rewrite !andb_false_r in *. rewrite !andb_true_r in *.
     destruct (c =? 38) eqn:E38.
@@ -56,21 +59,19 @@ Proof.
     destruct (c =? 34) eqn:E34.
     { apply N.eqb_eq in E34. subst c. destruct fuel; [simpl in F; lia|].
       simpl. rewrite IH; auto. simpl in F. rewrite app_length in *. simpl in *. lia. }
+    destruct (c =? 13) eqn:E13.
+    { apply N.eqb_eq in E13. subst c. destruct fuel; [simpl in F; lia|].
+      simpl. rewrite IH; auto. simpl in F. rewrite app_length in *. simpl in *. lia. }
     destruct fuel; [simpl in F; lia|].
-    simpl app. cbn [lex_attr_value]. rewrite E34, N0, N13, E38. simpl orb.
+    simpl app. cbn [lex_attr_value]. rewrite E34, N0, E13, E38. simpl orb.
     rewrite IH; auto. simpl in F. lia.
 Qed.
 
-Theorem escape_attr_reversible : forall s rest, no_cr_nul s = true ->
+Theorem escape_attr_reversible : forall s rest, no_nul s = true ->
   lex_attr_value (S (length (escape true s ++ 34 :: rest))) (escape true s ++ 34 :: rest) = Some (s, rest).
 Proof. intros. apply lex_attr_escape; auto. Qed.
 
-(* DESIGN 6.3 row 10 (CR): the text "\r" is written raw and read back as "\n" *)
-Theorem escape_text_refuted_cr :
-  lex_text 3 (escape false [13] ++ [60]) = Some ([10], [60]).
-Proof. reflexivity. Qed.
-
-(* ------------------------------------------------ erasure of the ghosts *)
+(* ---------------------------------------------------- unfolding the walk *)
 
 Lemma go_eq : forall l st,
   (fix go (l : list xnode) (st : sstack) : list item * sstack :=
@@ -81,18 +82,6 @@ Lemma go_eq : forall l st,
      end) l st = ser_nodes l st.
 Proof. induction l as [|k r IH]; intro st; [reflexivity|]. cbn [ser_nodes]. destruct (ser_node k st). rewrite IH. reflexivity. Qed.
 
-Lemma go_g_eq : forall l st ph,
-  (fix go (l : list xnode) (st : sstack) (ph : pstack) : list item * sstack * pstack * bool :=
-     match l with
-     | [] => ([], st, ph, false)
-     | k :: r => let '(a, st', ph', fa) := ser_node_g k st ph in
-                 let '(b, st'', ph'', fb) := go r st' ph' in (a ++ b, st'', ph'', fa || fb)
-     end) l st ph = ser_nodes_g l st ph.
-Proof.
-  induction l as [|k r IH]; intros st ph; [reflexivity|]. cbn [ser_nodes_g].
-  destruct (ser_node_g k st ph) as [[[a st'] ph'] fa]. rewrite IH. reflexivity.
-Qed.
-
 Lemma ser_node_elem : forall name attrs kids st,
   ser_node (XElem name attrs kids) st =
   (let (i1, st1) := start_elem st name attrs in
@@ -100,384 +89,267 @@ Lemma ser_node_elem : forall name attrs kids st,
    let (i2, st3) := end_elem st2 name in (i1 :: is ++ [i2], st3)).
 Proof. intros. cbn [ser_node]. destruct (start_elem st name attrs). rewrite go_eq. reflexivity. Qed.
 
-Lemma ser_node_g_elem : forall name attrs kids st ph,
-  ser_node_g (XElem name attrs kids) st ph =
-  (let '(i1, st1, ph1, f1) := start_elem_g st ph name attrs in
-   let '(is, st2, ph2, f2) := ser_nodes_g kids st1 ph1 in
-   let '(i2, st3, ph3) := end_elem_g st2 ph2 name in (i1 :: is ++ [i2], st3, ph3, f1 || f2)).
+(* ------------------------------------------------------- the scope stack *)
+
+Lemma okey_cmp_eq : forall a b, okey_cmp a b = Eq <-> a = b.
 Proof.
-  intros. cbn [ser_node_g]. destruct (start_elem_g st ph name attrs) as [[[i1 st1] ph1] f1].
-  rewrite go_g_eq. reflexivity.
+  assert (S : forall x y, str_cmp x y = Eq <-> x = y).
+  { induction x as [|c x IH]; destruct y as [|d y]; simpl; split; intro H; try discriminate; auto.
+    - destruct (c ?= d) eqn:E; try discriminate. apply N.compare_eq in E. apply IH in H. congruence.
+    - inversion H; subst. rewrite N.compare_refl. apply IH. reflexivity. }
+  destruct a, b; simpl; split; intro H; try discriminate; auto.
+  - apply S in H. congruence.
+  - inversion H. apply S. reflexivity.
 Qed.
 
-Lemma silent_insert_st : forall st ph q, length ph = length st ->
-  fst (silent_insert st ph q) = match st with m :: r => sm_insert m q :: r | [] => [] end /\
-  length (snd (silent_insert st ph q)) = length (fst (silent_insert st ph q)).
+Lemma bt_get_insert : forall m k v k',
+  nm_get (bt_insert m k v) k' = if ostr_eqb k k' then Some v else nm_get m k'.
 Proof.
-  intros st ph q L. destruct st, ph; simpl in *; try discriminate; auto.
+  induction m as [|[a b] m IH]; intros k v k'; simpl.
+  - destruct (ostr_eqb k k'); reflexivity.
+  - destruct (okey_cmp k a) eqn:C; simpl.
+    + apply okey_cmp_eq in C. subst a. destruct (ostr_eqb k k'); reflexivity.
+    + destruct (ostr_eqb k k'); reflexivity.
+    + rewrite IH. destruct (ostr_eqb a k') eqn:E1; auto.
+      destruct (ostr_eqb k k') eqn:E2; auto.
+      apply ostr_eqb_eq in E1. apply ostr_eqb_eq in E2. subst.
+      rewrite (proj2 (okey_cmp_eq k' k') eq_refl) in C. discriminate.
 Qed.
 
-Lemma reg_attrs_g_erase : forall attrs st ph, length ph = length st ->
-  fst (fst (reg_attrs_g st ph attrs)) = reg_attrs st attrs /\
-  length (snd (fst (reg_attrs_g st ph attrs))) = length (fst (fst (reg_attrs_g st ph attrs))).
+Lemma bt_insert_in : forall m k v kv, In kv (bt_insert m k v) -> kv = (k, v) \/ In kv m.
 Proof.
-  induction attrs as [|a r IH]; intros st ph L; simpl; auto.
-  unfold reg_attr_g, find_or_insert_ns. fold (needs_ns (aname a)).
-  destruct (needs_ns (aname a)) eqn:N; simpl.
-  - destruct (s_find_uri st (aname a)) eqn:F; simpl.
-    + specialize (IH st ph L). destruct (reg_attrs_g st ph r) as [[st2 ph2] f2]. simpl in *. auto.
-    + destruct (silent_insert_st st ph (aname a) L) as [S1 S2].
-      destruct (silent_insert st ph (aname a)) as [st' ph']. simpl in *.
-      specialize (IH st' ph' S2). destruct (reg_attrs_g st' ph' r) as [[st2 ph2] f2]. simpl in *.
-      rewrite <- S1. auto.
-  - specialize (IH st ph L). destruct (reg_attrs_g st ph r) as [[st2 ph2] f2]. simpl in *. auto.
+  induction m as [|[a b] m IH]; intros k v kv H; simpl in H.
+  - destruct H as [H|[]]; auto.
+  - destruct (okey_cmp k a); simpl in H.
+    + destruct H as [H|H]; auto. right. right. auto.
+    + destruct H as [H|H]; auto.
+    + destruct H as [H|H]; [right; left; auto|]. destruct (IH _ _ _ H); auto. right. right. auto.
 Qed.
 
-Lemma find_or_insert_length : forall st q, length (find_or_insert_ns st q) = length st.
+(* no entry is an un-declaration marker: the serializer only ever inserts Some(uri) *)
+Definition no_none (st : sstack) : Prop := forall m k, In m st -> nm_get m k <> Some None.
+
+Lemma out_lookup_scope : forall st k, no_none st -> out_lookup k st = s_scope st k.
 Proof.
-  intros st q. unfold find_or_insert_ns.
-  destruct ((negb (is_none (qprefix q)) || negb (is_nil (qns q))) && negb (s_find_uri st q)); auto.
-  destruct st; auto.
+  induction st as [|m st IH]; intros k N; simpl; auto.
+  destruct (nm_get m k) as [[el|]|] eqn:G; auto.
+  - exfalso. apply (N m k); [left; auto|auto].
+  - apply IH. intros m' k' I. apply N. right. auto.
 Qed.
 
-Lemma start_elem_g_erase : forall st ph name attrs, length ph = length st ->
-  let r := start_elem_g st ph name attrs in
-  (fst (fst (fst r)), snd (fst (fst r))) = start_elem st name attrs /\
-  length (snd (fst r)) = length (snd (fst (fst r))).
+Lemma no_none_cons : forall m st, (forall k, nm_get m k <> Some None) -> no_none st -> no_none (m :: st).
+Proof. intros m st H N m' k [E|I]; [subst; auto|apply N; auto]. Qed.
+
+Lemma no_none_tl : forall st, no_none st -> no_none (tl st).
+Proof. intros [|m st] N; auto. intros m' k I. apply N. right. auto. Qed.
+
+Lemma foi_shape : forall m st q, exists m', find_or_insert_ns (m :: st) q = m' :: st /\
+  (m' = m \/ m' = sm_insert m q) /\ s_find_uri (m' :: st) q = true.
 Proof.
-  intros st ph name attrs L. unfold start_elem_g, start_elem.
-  set (st1 := find_or_insert_ns (nm_empty :: st) name).
-  assert (L1 : length ([] :: ph) = length st1).
-  { unfold st1. rewrite find_or_insert_length. simpl. auto. }
-  destruct (reg_attrs_g_erase attrs st1 ([] :: ph) L1) as [E1 E2].
-  destruct (reg_attrs_g st1 ([] :: ph) attrs) as [[st2 ph2] fa]. simpl in *. rewrite E1. split; [reflexivity|]. rewrite <- E1. exact E2.
+  intros m st q. unfold find_or_insert_ns. destruct (s_find_uri (m :: st) q) eqn:F.
+  - exists m. auto.
+  - exists (sm_insert m q). split; auto. split; auto.
+    unfold s_find_uri. simpl. unfold sm_insert. rewrite bt_get_insert, ostr_eqb_refl, str_eqb_refl.
+    apply orb_true_r.
 Qed.
 
-Lemma end_elem_g_erase : forall st ph name, length ph = length st ->
-  let r := end_elem_g st ph name in
-  (fst (fst r), snd (fst r)) = end_elem st name /\ length (snd r) = length (snd (fst r)).
+(* a lookup that succeeds keeps succeeding when a name with a compatible binding is registered *)
+Lemma foi_preserves : forall m st q q', s_find_uri (m :: st) q = true -> same_binding q' q = true ->
+  forall m', find_or_insert_ns (m :: st) q' = m' :: st -> s_find_uri (m' :: st) q = true.
 Proof.
-  intros st ph name L. unfold end_elem_g, end_elem, find_or_insert_ns. fold (needs_ns name).
-  assert (L' : length (tl ph) = length (tl st)) by (destruct st, ph; simpl in *; auto; discriminate).
-  destruct (needs_ns name && negb (s_find_uri (tl st) name)); simpl; auto.
-  destruct (silent_insert_st (tl st) (tl ph) name L') as [S1 S2].
-  destruct (silent_insert (tl st) (tl ph) name) as [st' ph']. simpl in *. split; [rewrite S1; reflexivity|exact S2].
+  intros m st q q' F SB m' E. unfold find_or_insert_ns in E.
+  destruct (s_find_uri (m :: st) q'); inversion E; subst; auto.
+  unfold s_find_uri in *. destruct (fixed_name q); auto. simpl in *.
+  unfold sm_insert. rewrite bt_get_insert.
+  unfold same_binding in SB. destruct (ostr_eqb (qprefix q') (qprefix q)) eqn:EP; auto.
 Qed.
 
-Lemma ser_g_erase : forall n st ph, length ph = length st ->
-  let r := ser_node_g n st ph in
-  (fst (fst (fst r)), snd (fst (fst r))) = ser_node n st /\
-  length (snd (fst r)) = length (snd (fst (fst r))).
+Lemma no_none_insert : forall m q, (forall k, nm_get m k <> Some None) ->
+  forall k, nm_get (sm_insert m q) k <> Some None.
 Proof.
-  fix IH 1. intros n st ph L. destruct n as [name attrs kids|s|s|t d|nm pb sy]; try (simpl; auto; fail).
-  rewrite ser_node_g_elem, ser_node_elem.
-  destruct (start_elem_g_erase st ph name attrs L) as [E1 L1].
-  destruct (start_elem_g st ph name attrs) as [[[i1 st1] ph1] f1]. simpl in E1, L1. rewrite <- E1.
-  assert (K : forall l st ph, length ph = length st ->
-              let r := ser_nodes_g l st ph in
-              (fst (fst (fst r)), snd (fst (fst r))) = ser_nodes l st /\
-              length (snd (fst r)) = length (snd (fst (fst r)))).
-  { induction l as [|k r IHr]; intros st' ph' L'; [simpl; auto|].
-    simpl. destruct (IH k st' ph' L') as [A1 A2].
-    destruct (ser_node_g k st' ph') as [[[a sa] pa] fa]. simpl in A1, A2. rewrite <- A1.
-    destruct (IHr sa pa A2) as [B1 B2].
-    destruct (ser_nodes_g r sa pa) as [[[b sb] pb'] fb]. simpl in B1, B2. rewrite <- B1. simpl. auto. }
-  destruct (K kids st1 ph1 L1) as [E2 L2].
-  destruct (ser_nodes_g kids st1 ph1) as [[[is st2] ph2] f2]. simpl in E2, L2. rewrite <- E2.
-  destruct (end_elem_g_erase st2 ph2 name L2) as [E3 L3].
-  destruct (end_elem_g st2 ph2 name) as [[i2 st3] ph3]. simpl in E3, L3. rewrite <- E3. simpl. auto.
+  intros m q H k. unfold sm_insert. rewrite bt_get_insert. destruct (ostr_eqb (qprefix q) k); [discriminate|auto].
 Qed.
 
-Lemma ser_nodes_g_erase : forall l st ph, length ph = length st ->
-  fst (fst (fst (ser_nodes_g l st ph))) = fst (ser_nodes l st).
+(* registering a list of names: every one of them ends up in scope *)
+Fixpoint reg_names (st : sstack) (l : list qname) : sstack :=
+  match l with [] => st | q :: r => reg_names (find_or_insert_ns st q) r end.
+
+Lemma reg_attrs_names : forall attrs st,
+  reg_attrs st attrs = reg_names st (map aname (filter (fun a => negb (is_none (qprefix (aname a)))) attrs)).
 Proof.
-  induction l as [|k r IH]; intros st ph L; simpl; auto.
-  destruct (ser_g_erase k st ph L) as [A1 A2].
-  destruct (ser_node_g k st ph) as [[[a sa] pa] fa]. simpl in A1, A2. rewrite <- A1.
-  specialize (IH sa pa A2).
-  destruct (ser_nodes_g r sa pa) as [[[b sb] pb] fb]. simpl in IH.
-  destruct (ser_nodes r sa). simpl in *. congruence.
+  induction attrs as [|a r IH]; intro st; simpl; auto.
+  destruct (is_none (qprefix (aname a))); simpl; apply IH.
 Qed.
 
-(* ------------------------------------- the invariant behind adequacy *)
-
-Definition level_ok (m : nsmap) (p : list (option str)) (h : nsmap) : Prop :=
-  (forall k, okey_mem k p = false -> nm_get m k = nm_get h k) /\
-  (forall k, okey_mem k p = true -> exists el, nm_get m k = Some (Some el)) /\
-  (forall k, nm_get m k <> Some None).
-
-Fixpoint J (st : sstack) (ph : pstack) (hon : list nsmap) : Prop :=
-  match st, ph, hon with
-  | [], [], [] => True
-  | m :: st', p :: ph', h :: hon' => level_ok m p h /\ J st' ph' hon'
-  | _, _, _ => False
-  end.
-
-Lemma J_length : forall st ph hon, J st ph hon -> length ph = length st.
+Lemma reg_names_ok : forall l m st done,
+  (forall k, nm_get m k <> Some None) ->
+  (forall q, In q done -> s_find_uri (m :: st) q = true) ->
+  (forall a b, In a (done ++ l) -> In b (done ++ l) -> same_binding a b = true) ->
+  (forall kv, In kv m -> exists q, In q done /\ kv = (qprefix q, Some (qns q))) ->
+  exists m', reg_names (m :: st) l = m' :: st /\
+    (forall k, nm_get m' k <> Some None) /\
+    (forall q, In q (done ++ l) -> s_find_uri (m' :: st) q = true) /\
+    (forall kv, In kv m' -> exists q, In q (done ++ l) /\ kv = (qprefix q, Some (qns q))).
 Proof.
-  induction st as [|m st IH]; destruct ph, hon; simpl; intros H; try contradiction; auto.
-  destruct H as [_ H]. f_equal. eapply IH; eauto.
+  induction l as [|q l IH]; intros m st done NN D C O.
+  - exists m. rewrite app_nil_r. simpl. auto.
+  - simpl. destruct (foi_shape m st q) as (m1 & E & SH & F). rewrite E.
+    destruct (IH m1 st (done ++ [q])) as (m' & E' & NN' & D' & O').
+    + destruct SH as [->| ->]; auto. apply no_none_insert; auto.
+    + intros q0 I. apply in_app_or in I. destruct I as [I|[I|[]]].
+      * eapply foi_preserves; eauto. apply C; apply in_or_app; [right; left; auto|left; auto].
+      * subst. auto.
+    + intros a b Ia Ib. rewrite <- app_assoc in Ia, Ib. apply C; auto.
+    + intros kv I. destruct SH as [->| ->].
+      * destruct (O kv I) as (q0 & I0 & E0). exists q0. split; auto. apply in_or_app. auto.
+      * unfold sm_insert in I. apply bt_insert_in in I. destruct I as [I|I].
+        -- exists q. split; auto. apply in_or_app. right. left. auto.
+        -- destruct (O kv I) as (q0 & I0 & E0). exists q0. split; auto. apply in_or_app. auto.
+    + exists m'. rewrite <- app_assoc in D', O'. auto.
 Qed.
 
-Lemma J_tl : forall st ph hon, J st ph hon -> J (tl st) (tl ph) (tl hon).
-Proof. destruct st, ph, hon; simpl; intros H; try contradiction; auto. destruct H; auto. Qed.
-
-(* a lookup that succeeds through a declared entry is confirmed by the output *)
-Lemma lookup_honest : forall st ph hon q, J st ph hon ->
-  s_find_uri st q = true -> via_silent st ph q = false ->
-  out_lookup (qprefix q) hon = Some (qns q).
+Lemma elem_cons_same : forall name attrs, elem_cons name attrs = true ->
+  forall a b, In a (tag_names name attrs) -> In b (tag_names name attrs) -> same_binding a b = true.
 Proof.
-  induction st as [|m st IH]; destruct ph as [|p ph], hon as [|h hon]; simpl; intros q H F V;
-    try contradiction; try discriminate.
-  destruct H as [(L1 & L2 & L3) H].
-  destruct (nm_get m (qprefix q)) as [[el|]|] eqn:G.
-  - rewrite <- (L1 _ V), G. apply str_eqb_eq in F. congruence.
-  - exfalso. apply (L3 _ G).
-  - destruct (okey_mem (qprefix q) p) eqn:M.
-    + destruct (L2 _ M) as (el & E). congruence.
-    + rewrite <- (L1 _ M), G. apply IH with (ph := ph); auto.
-Qed.
-
-Lemma no_default_honest : forall st ph hon, J st ph hon -> has_default st = false ->
-  out_lookup None hon = None.
-Proof.
-  induction st as [|m st IH]; destruct ph as [|p ph], hon as [|h hon]; simpl; intros H D;
-    try contradiction; auto.
-  destruct H as [(L1 & L2 & L3) H]. apply orb_false_iff in D. destruct D as [D1 D2].
-  apply negb_false_iff in D1. destruct (nm_get m None) eqn:G; [discriminate|].
-  destruct (okey_mem None p) eqn:M.
-  - destruct (L2 _ M) as (el & E). congruence.
-  - rewrite <- (L1 _ M), G. apply IH with (ph := ph); auto.
-Qed.
-
-Lemma level_ok_silent : forall m p h q, level_ok m p h ->
-  level_ok (sm_insert m q) (qprefix q :: p) h.
-Proof.
-  intros m p h q (L1 & L2 & L3). unfold sm_insert. split; [|split].
-  - intros k M. simpl in M. apply orb_false_iff in M. destruct M as [M1 M2].
-    rewrite nm_get_insert. rewrite ostr_eqb_sym, M1. auto.
-  - intros k M. rewrite nm_get_insert. destruct (ostr_eqb (qprefix q) k) eqn:E; [eauto|].
-    simpl in M. rewrite ostr_eqb_sym, E in M. simpl in M. auto.
-  - intros k. rewrite nm_get_insert. destruct (ostr_eqb (qprefix q) k); [discriminate|auto].
-Qed.
-
-Lemma silent_insert_J : forall st ph hon q, J st ph hon ->
-  J (fst (silent_insert st ph q)) (snd (silent_insert st ph q)) hon.
-Proof.
-  destruct st as [|m st], ph as [|p ph], hon as [|h hon]; simpl; intros q H; try contradiction; auto.
-  destruct H as [L H]. split; auto. apply level_ok_silent; auto.
+  intros name attrs H a b Ia Ib. unfold elem_cons in H. apply andb_true_iff in H. destruct H as [H _].
+  rewrite forallb_forall in H. specialize (H a Ia). rewrite forallb_forall in H. auto.
 Qed.
 
 Lemma bound_of_lookup : forall sc k u, out_lookup k sc = Some u -> bound sc k u = true.
 Proof. intros sc k u H. unfold bound. rewrite H, str_eqb_refl. apply orb_true_r. Qed.
 
-Lemma reg_attr_g_ok : forall st ph hon a st' ph' f, J st ph hon ->
-  reg_attr_g st ph a = (st', ph', f) -> f = false ->
-  attr_bound hon a = true /\ J st' ph' hon.
+(* a name that find_uri accepts is adequately declared *)
+Lemma find_name_bound : forall st q, no_none st -> s_find_uri st q = true -> name_bound st q = true.
 Proof.
-  intros st ph hon a st' ph' f H R F. unfold reg_attr_g in R. unfold attr_bound.
-  destruct (needs_ns (aname a)) eqn:N.
-  - destruct (s_find_uri st (aname a)) eqn:FU.
-    + injection R as E1 E2 E3. subst st' ph'. rewrite <- E3 in F. clear E3.
-      apply orb_false_iff in F. destruct F as [F1 F2].
-      split; auto. destruct (qprefix (aname a)) as [p|] eqn:P; [|discriminate].
-      apply andb_false_iff in F2. destruct F2 as [F2|F2].
-      * apply bound_of_lookup. rewrite <- P. eapply lookup_honest; eauto.
-      * apply negb_false_iff in F2. unfold bound. rewrite F2. reflexivity.
-    + pose proof (silent_insert_J st ph hon (aname a) H) as SJ.
-      destruct (silent_insert st ph (aname a)) as [s1 p1].
-      injection R as E1 E2 E3. subst st' ph'. rewrite <- E3 in F. clear E3.
-      apply orb_false_iff in F. destruct F as [F1 F2]. split; auto.
-      destruct (qprefix (aname a)) as [p|] eqn:P; [|discriminate].
-      apply negb_false_iff in F2. unfold bound. rewrite F2. reflexivity.
-  - injection R as E1 E2 E3. subst st' ph'. split; auto.
-    unfold needs_ns in N. apply orb_false_iff in N. destruct N as [N1 N2].
-    apply negb_false_iff in N1. apply negb_false_iff in N2.
-    destruct (qprefix (aname a)); [discriminate|exact N2].
+  intros st q N F. unfold s_find_uri in F. unfold name_bound.
+  destruct (qprefix q) as [p|] eqn:P.
+  - apply orb_true_iff in F. destruct F as [F|F].
+    + unfold bound. unfold fixed_name in F. rewrite P in F. unfold fixedb. rewrite F. reflexivity.
+    + rewrite <- (out_lookup_scope st (Some p) N) in F.
+      destruct (out_lookup (Some p) st) as [el|] eqn:G; [|discriminate].
+      apply str_eqb_eq in F. subst. apply bound_of_lookup. auto.
+  - apply orb_true_iff in F. destruct F as [F|F].
+    + unfold fixed_name in F. rewrite P in F. simpl in F. discriminate.
+    + unfold default_of. rewrite (out_lookup_scope st None N).
+      destruct (s_scope st None) as [el|]; auto.
 Qed.
 
-Lemma reg_attrs_g_ok : forall attrs st ph hon st' ph' f, J st ph hon ->
-  reg_attrs_g st ph attrs = (st', ph', f) -> f = false ->
-  forallb (attr_bound hon) attrs = true /\ J st' ph' hon.
+Lemma find_attr_bound : forall st a, no_none st -> (negb (is_none (qprefix (aname a))) || is_nil (qns (aname a))) = true ->
+  (is_none (qprefix (aname a)) = false -> s_find_uri st (aname a) = true) -> attr_bound st a = true.
 Proof.
-  induction attrs as [|a r IH]; intros st ph hon st' ph' f H R F; simpl in R.
-  - inversion R; subst. auto.
-  - destruct (reg_attr_g st ph a) as [[s1 p1] f1] eqn:R1.
-    destruct (reg_attrs_g s1 p1 r) as [[s2 p2] f2] eqn:R2.
-    injection R as E1 E2 E3. subst st' ph'. rewrite <- E3 in F. clear E3.
-    apply orb_false_iff in F. destruct F as [F1 F2].
-    destruct (reg_attr_g_ok _ _ _ _ _ _ _ H R1 F1) as [A1 J1].
-    destruct (IH _ _ _ _ _ _ J1 R2 F2) as [A2 J2]. simpl. rewrite A1, A2. auto.
+  intros st a N PL F. unfold attr_bound. destruct (qprefix (aname a)) as [p|] eqn:P.
+  - pose proof (find_name_bound st (aname a) N (F eq_refl)) as B. unfold name_bound in B. rewrite P in B. exact B.
+  - simpl in PL. exact PL.
 Qed.
 
-Lemma level_ok_fresh : forall m, (forall k, nm_get m k <> Some None) -> level_ok m [] m.
-Proof. intros m H. split; [|split]; auto. intros k M. discriminate. Qed.
-
-Lemma start_elem_g_ok : forall st ph hon name attrs decls st2 ph2 f, J st ph hon ->
-  start_elem_g st ph name attrs = (IStart name decls attrs, st2, ph2, f) -> f = false ->
-  name_bound (decls :: hon) name = true /\ forallb (attr_bound (decls :: hon)) attrs = true /\
-  J st2 ph2 (decls :: hon).
+(* what start_elem writes and leaves behind *)
+Lemma start_elem_ok : forall st name attrs, no_none st -> elem_cons name attrs = true ->
+  exists decls, start_elem st name attrs = (IStart name decls attrs, decls :: st) /\
+    no_none (decls :: st) /\
+    name_bound (decls :: st) name = true /\ forallb (attr_bound (decls :: st)) attrs = true /\
+    (forall kv, In kv decls -> exists q, In q (tag_names name attrs) /\ kv = (qprefix q, Some (qns q))).
 Proof.
-  intros st ph hon name attrs decls st2 ph2 f H S F. unfold start_elem_g in S.
-  destruct (reg_attrs_g (find_or_insert_ns (nm_empty :: st) name) ([] :: ph) attrs) as [[s2 p2] fa] eqn:RA.
-  injection S as DE E1 E2 E3. subst st2 ph2. rewrite <- E3 in F. clear E3.
-  apply orb_false_iff in F. destruct F as [F1 F2].
-  unfold find_or_insert_ns in *. fold (needs_ns name) in *.
-  change (s_find_uri (nm_empty :: st) name) with (s_find_uri st name) in *.
-  destruct (needs_ns name) eqn:N.
-  - destruct (s_find_uri st name) eqn:FU; simpl andb in *.
-    + (* already bound: nothing declared here *)
-      simpl in DE. subst decls.
-      assert (J0 : J (nm_empty :: st) ([] :: ph) ([] :: hon)).
-      { simpl. split; auto. apply level_ok_fresh. intros k. simpl. discriminate. }
-      destruct (reg_attrs_g_ok _ _ _ _ _ _ _ J0 RA F2) as [A JA]. split; [|auto].
-      unfold name_bound. apply andb_false_iff in F1.
-      destruct (qprefix name) as [p|] eqn:P.
-      * destruct F1 as [F1|F1].
-        -- apply bound_of_lookup. rewrite <- P. simpl. apply (lookup_honest st ph hon name H FU F1).
-        -- apply negb_false_iff in F1. unfold bound. rewrite F1. reflexivity.
-      * destruct F1 as [F1|F1].
-        -- unfold default_of. rewrite <- P. simpl. rewrite (lookup_honest st ph hon name H FU F1). apply str_eqb_refl.
-        -- apply negb_false_iff in F1. unfold fixedb in F1. simpl in F1. discriminate.
-    + (* registered and declared *)
-      simpl in DE. subst decls.
-      assert (J0 : J (sm_insert nm_empty name :: st) ([] :: ph) (sm_insert nm_empty name :: hon)).
-      { simpl. split; auto. apply level_ok_fresh. intros k. unfold sm_insert. rewrite nm_get_insert.
-        destruct (ostr_eqb (qprefix name) k); simpl; discriminate. }
-      destruct (reg_attrs_g_ok _ _ _ _ _ _ _ J0 RA F2) as [A JA]. split; [|auto].
-      assert (OL : out_lookup (qprefix name) (sm_insert nm_empty name :: hon) = Some (qns name)).
-      { cbn [out_lookup]. unfold sm_insert. rewrite nm_get_insert, ostr_eqb_refl. reflexivity. }
-      unfold name_bound. destruct (qprefix name) as [p|] eqn:P.
-      * apply bound_of_lookup. exact OL.
-      * unfold default_of. rewrite OL. apply str_eqb_refl.
-  - (* unprefixed, no namespace *)
-    simpl andb in *. simpl in DE. subst decls.
-    assert (J0 : J (nm_empty :: st) ([] :: ph) ([] :: hon)).
-    { simpl. split; auto. apply level_ok_fresh. intros k. simpl. discriminate. }
-    destruct (reg_attrs_g_ok _ _ _ _ _ _ _ J0 RA F2) as [A JA]. split; [|auto].
-    unfold needs_ns in N. apply orb_false_iff in N. destruct N as [N1 N2].
-    apply negb_false_iff in N1. apply negb_false_iff in N2.
-    unfold name_bound. destruct (qprefix name); [discriminate|].
-    unfold default_of. simpl. rewrite (no_default_honest st ph hon H F1).
-    destruct (qns name); [reflexivity|discriminate].
+  intros st name attrs N C. unfold start_elem. rewrite reg_attrs_names.
+  change (reg_names (find_or_insert_ns (nm_empty :: st) name) ?l) with (reg_names (nm_empty :: st) (name :: l)).
+  destruct (reg_names_ok (tag_names name attrs) nm_empty st []) as (m' & E & NN & D & O).
+  - intros k. simpl. discriminate.
+  - intros q [].
+  - simpl app. apply elem_cons_same. auto.
+  - intros kv [].
+  - unfold tag_names in E. rewrite E. exists m'. simpl app in D, O.
+    assert (N' : no_none (m' :: st)) by (apply no_none_cons; auto).
+    split; [reflexivity|]. split; [exact N'|]. split.
+    + apply find_name_bound; auto. apply D. left. reflexivity.
+    + split; [|exact O]. apply forallb_forall. intros a Ia.
+      unfold elem_cons in C. apply andb_true_iff in C. destruct C as [_ C].
+      rewrite forallb_forall in C. apply find_attr_bound; auto.
+      intro PF. apply D. right. apply in_map. apply filter_In. split; auto. rewrite PF. reflexivity.
 Qed.
 
-Lemma end_elem_g_ok : forall st ph hon name i st' ph', J st ph hon ->
-  end_elem_g st ph name = (i, st', ph') -> i = IEnd name /\ J st' ph' (tl hon).
+(* a subtree is adequately declared in its context and leaves the scope stack as it found it *)
+Lemma ser_node_ok : forall n st, node_cons n = true -> no_none st ->
+  snd (ser_node n st) = st /\
+  forall rest, adequate (fst (ser_node n st) ++ rest) st = adequate rest st.
 Proof.
-  intros st ph hon name i st' ph' H E. unfold end_elem_g in E. apply J_tl in H.
-  destruct (needs_ns name && negb (s_find_uri (tl st) name)).
-  - pose proof (silent_insert_J _ _ _ name H) as SJ.
-    destruct (silent_insert (tl st) (tl ph) name). inversion E; subst. auto.
-  - inversion E; subst. auto.
+  fix IH 1. intros n st C N.
+  destruct n as [name attrs kids|s|s|t d|nm pb sy]; try (simpl; auto; fail).
+  rewrite ser_node_elem. cbn [node_cons] in C. apply andb_true_iff in C. destruct C as [C CK].
+  destruct (start_elem_ok st name attrs N C) as (decls & SE & N1 & NB & AB & _). rewrite SE.
+  assert (K : forall l, (fix all (l : list xnode) : bool := match l with [] => true | k :: r => node_cons k && all r end) l = true ->
+              snd (ser_nodes l (decls :: st)) = decls :: st /\
+              forall rest, adequate (fst (ser_nodes l (decls :: st)) ++ rest) (decls :: st) = adequate rest (decls :: st)).
+  { induction l as [|k r IHr]; intro CL; [simpl; auto|].
+    apply andb_true_iff in CL. destruct CL as [C1 C2].
+    cbn [ser_nodes]. destruct (IH k (decls :: st) C1 N1) as [A1 A2].
+    destruct (ser_node k (decls :: st)) as [a sa]. simpl in A1, A2. subst sa.
+    destruct (IHr C2) as [B1 B2]. destruct (ser_nodes r (decls :: st)) as [b sb]. simpl in *.
+    split; auto. intro rest. rewrite <- app_assoc, A2, B2. reflexivity. }
+  destruct (K kids CK) as [K1 K2]. destruct (ser_nodes kids (decls :: st)) as [is st2]. simpl in K1, K2. subst st2.
+  simpl. split; auto. intro rest. rewrite NB, AB. simpl. rewrite <- app_assoc, K2. reflexivity.
 Qed.
 
-Lemma start_elem_g_item : forall st ph name attrs,
-  exists decls, fst (fst (fst (start_elem_g st ph name attrs))) = IStart name decls attrs.
+Lemma ser_nodes_ok : forall l st, forest_cons l = true -> no_none st ->
+  snd (ser_nodes l st) = st /\
+  forall rest, adequate (fst (ser_nodes l st) ++ rest) st = adequate rest st.
 Proof.
-  intros. unfold start_elem_g.
-  destruct (reg_attrs_g _ _ attrs) as [[s2 p2] fa]. simpl. eauto.
+  induction l as [|k r IH]; intros st C N; [simpl; auto|].
+  simpl in C. apply andb_true_iff in C. destruct C as [C1 C2].
+  cbn [ser_nodes]. destruct (ser_node_ok k st C1 N) as [A1 A2].
+  destruct (ser_node k st) as [a sa]. simpl in A1, A2. subst sa.
+  destruct (IH st C2 N) as [B1 B2]. destruct (ser_nodes r st) as [b sb]. simpl in *.
+  split; auto. intro rest. rewrite <- app_assoc, A2, B2. reflexivity.
 Qed.
 
-(* a clean subtree is adequate in its context and leaves the scopes as they were *)
-Lemma ser_node_g_ok : forall n st ph hon items st' ph' f, J st ph hon ->
-  ser_node_g n st ph = (items, st', ph', f) -> f = false ->
-  (forall rest, adequate (items ++ rest) hon = adequate rest hon) /\ J st' ph' hon.
+(* C17_decl_adequate, for every document *)
+Theorem decl_adequate : forall kids, forest_cons kids = true -> adequate (ser_doc kids) [] = true.
 Proof.
-  fix IH 1. intros n st ph hon items st' ph' f H S F.
-  destruct n as [name attrs kids|s|s|t d|nm pb sy];
-    try (simpl in S; inversion S; subst; split; [intro rest; reflexivity|exact H]).
-  rewrite ser_node_g_elem in S.
-  destruct (start_elem_g_item st ph name attrs) as [decls DI].
-  destruct (start_elem_g st ph name attrs) as [[[i1 st1] ph1] f1] eqn:SE. simpl in DI. subst i1.
-  destruct (ser_nodes_g kids st1 ph1) as [[[is st2] ph2] f2] eqn:SK.
-  destruct (end_elem_g st2 ph2 name) as [[i2 st3] ph3] eqn:EE.
-  injection S as E0 E1 E2 E3. subst items st' ph'. rewrite <- E3 in F. clear E3.
-  apply orb_false_iff in F. destruct F as [F1 F2].
-  destruct (start_elem_g_ok _ _ _ _ _ _ _ _ _ H SE F1) as (NB & AB & J1).
-  assert (K : forall l st ph is st' ph' f, J st ph (decls :: hon) ->
-              ser_nodes_g l st ph = (is, st', ph', f) -> f = false ->
-              (forall rest, adequate (is ++ rest) (decls :: hon) = adequate rest (decls :: hon)) /\
-              J st' ph' (decls :: hon)).
-  { induction l as [|k r IHr]; intros sa pa isx sb pb' fx Ja Sx Fx.
-    - simpl in Sx. inversion Sx; subst. split; auto.
-    - simpl in Sx. destruct (ser_node_g k sa pa) as [[[a s1] p1] fa] eqn:SN.
-      destruct (ser_nodes_g r s1 p1) as [[[b s2] p2] fb] eqn:SR.
-      injection Sx as E0 E1 E2 E3. subst isx sb pb'. rewrite <- E3 in Fx. clear E3.
-      apply orb_false_iff in Fx. destruct Fx as [Fa Fb].
-      destruct (IH k _ _ _ _ _ _ _ Ja SN Fa) as [A1 J1'].
-      destruct (IHr _ _ _ _ _ _ J1' SR Fb) as [A2 J2].
-      split; auto. intro rest. rewrite <- app_assoc, A1, A2. reflexivity. }
-  destruct (K kids _ _ _ _ _ _ J1 SK F2) as [AK J2].
-  destruct (end_elem_g_ok _ _ _ _ _ _ _ J2 EE) as [E2 J3]. subst i2. simpl in J3.
-  split; auto. intro rest. simpl. rewrite NB, AB. simpl.
-  rewrite <- app_assoc, AK. simpl. reflexivity.
+  intros kids C. unfold ser_doc.
+  destruct (ser_nodes_ok kids [] C) as [_ A]; [intros m k []|].
+  rewrite <- (app_nil_r (fst (ser_nodes kids []))). rewrite A. reflexivity.
 Qed.
 
-Lemma ser_nodes_g_ok : forall l st ph hon is st' ph' f, J st ph hon ->
-  ser_nodes_g l st ph = (is, st', ph', f) -> f = false ->
-  (forall rest, adequate (is ++ rest) hon = adequate rest hon) /\ J st' ph' hon.
-Proof.
-  induction l as [|k r IH]; intros st ph hon is st' ph' f H S F.
-  - simpl in S. inversion S; subst. split; auto.
-  - simpl in S. destruct (ser_node_g k st ph) as [[[a s1] p1] fa] eqn:SN.
-    destruct (ser_nodes_g r s1 p1) as [[[b s2] p2] fb] eqn:SR.
-    injection S as E0 E1 E2 E3. subst is st' ph'. rewrite <- E3 in F. clear E3.
-    apply orb_false_iff in F. destruct F as [Fa Fb].
-    destruct (ser_node_g_ok k _ _ _ _ _ _ _ H SN Fa) as [A1 J1].
-    destruct (IH _ _ _ _ _ _ _ J1 SR Fb) as [A2 J2].
-    split; auto. intro rest. rewrite <- app_assoc, A1, A2. reflexivity.
-Qed.
-
-(* C17_decl_adequate outside the finding classes *)
-Theorem decl_adequate_outside_finding : forall kids,
-  ser_clean kids = true -> adequate (ser_doc kids) [] = true.
-Proof.
-  intros kids C. unfold ser_clean in C. apply negb_true_iff in C. unfold ser_doc.
-  rewrite <- (ser_nodes_g_erase kids [] []) by reflexivity.
-  destruct (ser_nodes_g kids [] []) as [[[is st'] ph'] f] eqn:S. simpl in C. simpl.
-  destruct (ser_nodes_g_ok kids [] [] [] _ _ _ _ I S C) as [A _].
-  rewrite <- (app_nil_r is). rewrite A. reflexivity.
-Qed.
-
-(* ------------------------------------------------------------ refutations *)
+(* ------------------------------------- the witnesses of the repaired findings *)
 
 Definition q_ (p : option str) (ns l : str) : qname := mkq p ns l.
 
-(* <a xmlns:p="u" p:x="1"/> as a tree: attribute prefix never declared *)
+(* <a xmlns:p="u" p:x="1"/> as a tree *)
 Definition wA : list xnode :=
   [XElem (q_ None [] [97]) [mka (q_ (Some [112]) [117] [120]) [49]] []].
-(* <r><p:a xmlns:p="u"/><p:b xmlns:p="u"/></r> : the second sibling gets no declaration *)
+(* <r><p:a xmlns:p="u"/><p:b xmlns:p="u"/></r> *)
 Definition wB : list xnode :=
   [XElem (q_ None [] [114]) []
      [XElem (q_ (Some [112]) [117] [97]) [] []; XElem (q_ (Some [112]) [117] [98]) [] []]].
-(* <a xmlns="u"><b xmlns=""/></a> : no xmlns="" on b *)
+(* <a xmlns="u"><b xmlns=""/></a> *)
 Definition wC : list xnode :=
   [XElem (q_ None [117] [97]) [] [XElem (q_ None [] [98]) [] []]].
 (* <a>x&#13;y</a> *)
 Definition wD : list xnode := [XElem (q_ None [] [97]) [] [XText [120; 13; 121]]].
+(* <r><p:c xmlns:p="a&quot;b"/></r> : a namespace URI containing a quotation mark *)
+Definition wE : list xnode := [XElem (q_ None [] [114]) [] [XElem (q_ (Some [112]) [97; 34; 98] [99]) [] []]].
 
-Theorem decl_adequate_refuted :
-  adequate (ser_doc wA) [] = false /\ adequate (ser_doc wB) [] = false /\ adequate (ser_doc wC) [] = false.
+Example witnesses_adequate :
+  adequate (ser_doc wA) [] = true /\ adequate (ser_doc wB) [] = true /\ adequate (ser_doc wC) [] = true.
 Proof. vm_compute. auto. Qed.
 
-(* ... and the token-level re-parse of the model's own output loses the tree *)
-Theorem roundtrip_refuted :
-  roundtrip_tok wA = false /\ roundtrip_tok wB = false /\ roundtrip_tok wC = false.
+Example witnesses_roundtrip :
+  roundtrip_tok wA = true /\ roundtrip_tok wB = true /\ roundtrip_tok wC = true /\
+  roundtrip_tok wD = true /\ roundtrip_tok wE = true.
 Proof. vm_compute. auto. Qed.
 
-Theorem witnesses_not_clean :
-  ser_clean wA = false /\ ser_clean wB = false /\ ser_clean wC = false /\ ser_clean wD = true.
-Proof. vm_compute. auto. Qed.
-
-(* what the serializer writes for the witnesses (compare DESIGN 6.3 row 10) *)
-Example ser_wA : serialize wA = [60;97;32;112;58;120;61;34;49;34;62;60;47;97;62].       (* <a p:x="1"></a> *)
+(* what the serializer writes for the witnesses *)
+Example ser_wA : serialize wA =                       (* <a xmlns:p="u" p:x="1"></a> *)
+  [60;97;32;120;109;108;110;115;58;112;61;34;117;34;32;112;58;120;61;34;49;34;62;60;47;97;62].
 Proof. vm_compute. reflexivity. Qed.
-Example ser_wD : serialize wD = [60;97;62;120;13;121;60;47;97;62].                       (* <a>x CR y</a> *)
+Example ser_wC : serialize wC =                       (* <a xmlns="u"><b xmlns=""></b></a> *)
+  [60;97;32;120;109;108;110;115;61;34;117;34;62;60;98;32;120;109;108;110;115;61;34;34;62;60;47;98;62;60;47;97;62].
+Proof. vm_compute. reflexivity. Qed.
+Example ser_wD : serialize wD = [60;97;62;120;38;35;49;51;59;121;60;47;97;62].     (* <a>x&#13;y</a> *)
+Proof. vm_compute. reflexivity. Qed.
+Example ser_wE : serialize wE =                       (* <r><p:c xmlns:p="a&quot;b"></p:c></r> *)
+  [60;114;62;60;112;58;99;32;120;109;108;110;115;58;112;61;34;97;38;113;117;111;116;59;98;34;62;60;47;112;58;99;62;60;47;114;62].
 Proof. vm_compute. reflexivity. Qed.
 
-(* non-vacuity: <r xmlns="d"><p:a xmlns:p="u" p:x="1" y="&lt;"><p:b/>t&amp;</p:a><c/></r> is clean,
-   adequately declared, and survives the token-level round trip *)
+(* non-vacuity: <r xmlns="d"><p:a xmlns:p="u" p:x="1" y="&lt;"><p:b/>t&amp;</p:a><c/></r> *)
 Definition ex_tree : list xnode :=
   [XElem (q_ None [100] [114]) []
      [XElem (q_ (Some [112]) [117] [97])
@@ -486,5 +358,5 @@ Definition ex_tree : list xnode :=
       XElem (q_ None [100] [99]) [] []]].
 
 Example ex_tree_ok :
-  ser_clean ex_tree = true /\ adequate (ser_doc ex_tree) [] = true /\ roundtrip_tok ex_tree = true.
+  forest_cons ex_tree = true /\ adequate (ser_doc ex_tree) [] = true /\ roundtrip_tok ex_tree = true.
 Proof. vm_compute. auto. Qed.
